@@ -139,6 +139,15 @@ Section Raw.
   Qed.
 End Raw.
 
+(* the property's reading of the raw-row statement: reasons at the specification switches *)
+Lemma raw_skipped_documented_reason_spec : forall offO offD geod excl year w ko kd o d fltno seats k,
+  import_raw offO offD geod spec_flags excl year w ko kd o d = ROutcome fltno seats (Skipped k) ->
+  exists r miles, documented_reason geod excl r ko kd o d miles k
+                  /\ c_carrier r = w_carrier w /\ c_service r = w_service w
+                  /\ c_operating r = w_operating w /\ c_genacft r = w_genacft w
+                  /\ py_int (w_stops w) = Some (c_stops r).
+Proof. intros. eapply raw_skipped_reason_holds; eassumption. Qed.
+
 (* the conventions on concrete strings *)
 Example parse_examples :
   parse_date "00000000" = Some None /\ parse_date "99999999" = Some None
